@@ -305,9 +305,9 @@ macro_rules! rt_stake {
     };
 }
 
-// bound: one harness per (address type t, network id k), both concrete; 28-byte hashes symbolic; to_vec -> Address::from_bytes compared field-wise; pointer types 4/5: components symbolic < 2^14 with the byte length (1 or 2) of each varuint concrete per harness (suffix _l<ls><lx><lc>), round trip through a hand-laid expected encoding; quick = 14 pairs, thorough = the whole 10 x 16 grid; unwind 6
+// bound: one harness per (address type t, network id k), both concrete; 28-byte hashes symbolic; to_vec -> Address::from_bytes compared field-wise; pointer types 4/5: components symbolic < 2^14 with the byte length (1 or 2) of each varuint concrete per harness (suffix _l<ls><lx><lc>), round trip through a hand-laid expected encoding; quick = 9 pairs, thorough = the whole 10 x 16 grid; unwind 6
 rt_base!(c18_q_rt_t0_n0, 0, 0);
-rt_base!(c18_q_rt_t0_n1, 0, 1);
+rt_base!(c18_t_rt_t0_n1, 0, 1);
 rt_base!(c18_t_rt_t0_n2, 0, 2);
 rt_base!(c18_t_rt_t0_n3, 0, 3);
 rt_base!(c18_t_rt_t0_n4, 0, 4);
@@ -329,7 +329,7 @@ rt_base!(c18_t_rt_t1_n3, 1, 3);
 rt_base!(c18_t_rt_t1_n4, 1, 4);
 rt_base!(c18_t_rt_t1_n5, 1, 5);
 rt_base!(c18_t_rt_t1_n6, 1, 6);
-rt_base!(c18_q_rt_t1_n7, 1, 7);
+rt_base!(c18_t_rt_t1_n7, 1, 7);
 rt_base!(c18_t_rt_t1_n8, 1, 8);
 rt_base!(c18_t_rt_t1_n9, 1, 9);
 rt_base!(c18_t_rt_t1_n10, 1, 10);
@@ -415,7 +415,7 @@ rt_ent!(c18_t_rt_t6_n3, 6, 3);
 rt_ent!(c18_t_rt_t6_n4, 6, 4);
 rt_ent!(c18_t_rt_t6_n5, 6, 5);
 rt_ent!(c18_t_rt_t6_n6, 6, 6);
-rt_ent!(c18_q_rt_t6_n7, 6, 7);
+rt_ent!(c18_t_rt_t6_n7, 6, 7);
 rt_ent!(c18_t_rt_t6_n8, 6, 8);
 rt_ent!(c18_t_rt_t6_n9, 6, 9);
 rt_ent!(c18_t_rt_t6_n10, 6, 10);
@@ -440,7 +440,7 @@ rt_ent!(c18_t_rt_t7_n12, 7, 12);
 rt_ent!(c18_t_rt_t7_n13, 7, 13);
 rt_ent!(c18_t_rt_t7_n14, 7, 14);
 rt_ent!(c18_t_rt_t7_n15, 7, 15);
-rt_stake!(c18_q_rt_t14_n0, 14, 0);
+rt_stake!(c18_t_rt_t14_n0, 14, 0);
 rt_stake!(c18_q_rt_t14_n1, 14, 1);
 rt_stake!(c18_t_rt_t14_n2, 14, 2);
 rt_stake!(c18_t_rt_t14_n3, 14, 3);
@@ -463,7 +463,7 @@ rt_stake!(c18_t_rt_t15_n3, 15, 3);
 rt_stake!(c18_t_rt_t15_n4, 15, 4);
 rt_stake!(c18_t_rt_t15_n5, 15, 5);
 rt_stake!(c18_t_rt_t15_n6, 15, 6);
-rt_stake!(c18_q_rt_t15_n7, 15, 7);
+rt_stake!(c18_t_rt_t15_n7, 15, 7);
 rt_stake!(c18_t_rt_t15_n8, 15, 8);
 rt_stake!(c18_t_rt_t15_n9, 15, 9);
 rt_stake!(c18_t_rt_t15_n10, 15, 10);
